@@ -225,6 +225,10 @@ def custom_game(draw):
             opts = [['BadugiHand'], ['StandardBadugiHand']]
         deck = draw(st.sampled_from(['STANDARD', 'REGULAR']))
         hts = draw(st.sampled_from(opts))
+        if len(hts) == 2 and draw(st.booleans()):
+            # the low half listed first (the order of hand_types is the
+            # caller's choice)
+            hts = hts[::-1]
         if hts == ['StandardHighHand'] and draw(st.integers(0, 3)) == 0 \
                 and total >= 5:
             deck = 'SHORT_DECK_HOLDEM'
@@ -276,9 +280,12 @@ def custom_game(draw):
                         ['StandardHighHand', 'EightOrBetterLowHand']]
         else:
             opts = [['BadugiHand']] if low else [['StandardBadugiHand']]
+        hts_ = draw(st.sampled_from(opts))
+        if len(hts_) == 2 and draw(st.booleans()):
+            hts_ = hts_[::-1]
         return dict(
             deck='REGULAR' if low else 'STANDARD',
-            hand_types=draw(st.sampled_from(opts)), structure=structure,
+            hand_types=hts_, structure=structure,
             streets=streets, family=fam, hole=total, board=0,
             burns=int(burn) * (nstreets - 1), stud=True, bring=bring,
             max_n=8,
